@@ -12,7 +12,7 @@ use neurons::tensor::{Shape, Tensor};
 
 pub fn meta(ctx: &Ctx) -> Meta {
     Meta {
-        rule: format!("every seed p in 1..m-1 (m = 2^31-1; = every generator state once) x intervals {} for generate: value in [min,max] and within rounding of the reference minstd value; real shuffle from every state for lengths {}; bands of 2^17 states at both ends of the state range: shuffle lengths 1..8,10,100,1000 and an interval grid incl. non-dyadic bounds; stride-4099 cover of all states for shuffle lengths 1..8; lengths 4096, 4097, 5000, 10^4, 65537 from the 128 extreme states and a sparse cover; degenerate, negative, subnormal and wider-than-MAX intervals ((-3e38,3e38), (MIN,MAX), (0,MAX), ..) from the seed list and the extreme states; seed list incl. 0, m, 2^32, 2^64/48271+-2, 1.7e18, 2^63, u64::MAX; all 70 interleavings of 4+4 calls on two equal-seed generators; Tensor::random over all shapes of rank 1-4 with extents <= 3. Non-trivial = every state is a distinct case", if ctx.tier.thorough() { "{(0,1),(-1,1),(0,2),(-0.5,0.5)}" } else { "{(0,1),(-1,1)}" }, if ctx.tier.thorough() { "1..8" } else { "1..2" }),
+        rule: format!("every seed p in 1..m-1 (m = 2^31-1; = every generator state once) x intervals {} for generate: value in [min,max] and within rounding of the reference minstd value; real shuffle from every state for lengths {}; bands of 2^17 states at both ends of the state range: shuffle lengths 1..8,10,100,1000 and an interval grid incl. non-dyadic bounds; stride-4099 cover of all states for shuffle lengths 1..8; lengths 4096, 4097, 5000, 10^4, 65537 from the 128 extreme states and a sparse cover; lengths 2^24+3 and 2^24+4 (beyond exact usize -> f32 conversion) from the extreme states; degenerate, negative, subnormal and wider-than-MAX intervals ((-3e38,3e38), (MIN,MAX), (0,MAX), ..) from the seed list and the extreme states; seed list incl. 0, m, 2^32, 2^64/48271+-2, 1.7e18, 2^63, u64::MAX; all 70 interleavings of 4+4 calls on two equal-seed generators; Tensor::random over all shapes of rank 1-4 with extents <= 3. Non-trivial = every state is a distinct case", if ctx.tier.thorough() { "{(0,1),(-1,1),(0,2),(-0.5,0.5)}" } else { "{(0,1),(-1,1)}" }, if ctx.tier.thorough() { "1..8" } else { "1..2" }),
         bound: "complete over the 2^31-2 non-zero states for the listed intervals and lengths".into(),
         exhaustive: true,
         assumptions: vec![
@@ -473,6 +473,32 @@ pub fn run(ctx: &Ctx) -> Report {
         });
         rep.merge_all(parts);
         rep.count("long_vector_seeds", seeds.len() as u64);
+    }
+    // vectors longer than 2^24 (where usize -> f32 stops being exact) from the top and bottom states: 2^24+3, 2^24+4
+    // (quick: 4 states; thorough: 24 states and 2^25+1)
+    {
+        let k = if thorough { 12u64 } else { 2 };
+        let seeds: Vec<u64> = (1..=k).chain((M - k)..M).map(seed_for_state).collect();
+        let lens: Vec<usize> = if thorough { vec![(1 << 24) + 3, (1 << 24) + 4, (1 << 25) + 1] } else { vec![(1 << 24) + 3, (1 << 24) + 4] };
+        let cases: Vec<(u64, usize)> = seeds.iter().flat_map(|s| lens.iter().map(move |l| (*s, *l))).collect();
+        let chunks: Vec<&[(u64, usize)]> = cases.chunks(cases.len().div_ceil(8)).collect();
+        let parts = par_map(&chunks, |_, c| {
+            let mut r = Report::new();
+            let mut buf = Vec::new();
+            for (seed, len) in c.iter() {
+                r.transitions += 1;
+                r.states += 1;
+                let res = guard(|| check_shuffle(*seed, *len, &mut buf)).unwrap_or_else(|e| {
+                    Some(("C18 shuffle panics".into(), format!("create({}).shuffle(vector of length {}): {}", seed, len, crate::util::first_line(&e))))
+                });
+                if let Some((k, w)) = res {
+                    r.violate(k, w, &Kv::new().put("op", "shuffle").put("seed", *seed).put("len", *len));
+                }
+            }
+            r
+        });
+        rep.merge_all(parts);
+        rep.count("very_long_vector_cases", cases.len() as u64);
     }
     for s in special_seeds() {
         check_special(s, &mut rep);
